@@ -251,3 +251,44 @@ fn witness_snapshot_reload_refcounts() {
     let rc: HashMap<BlobHash, u32> = st.known_blobs().map(|(k, v)| (*k, *v)).collect();
     assert_eq!(rc, cnt, "refcounts after loading a snapshot != number of keys per hash");
 }
+
+/// U-intents oracle (contract clauses guard_remembers_displaced_registration / drop_restores_displaced_registration /
+/// drop_ignores_foreign_entry / drop_leaves_other_keys as an executable model): random register / abandon sequences on two
+/// keys and three hashes; after every step the pending-intent map must equal the model.
+#[test]
+fn witness_intents_protocol() {
+    use crate::index::IntentMeta;
+    let mut rng = Rng::new();
+    for round in 0..300 {
+        let dir = tempfile::tempdir().unwrap();
+        let cas: crate::Cas<u8> = crate::Cas::open(dir.path(), crate::Config { scan_orphans_on_startup: false, ..Default::default() }).unwrap();
+        let index = &cas.as_arc().index;
+        let mut model: HashMap<u8, BlobHash> = HashMap::new();
+        // live guards with the model's view of what each one displaced
+        let mut guards: Vec<(crate::index::IntentGuard<'_, u8>, u8, BlobHash, Option<BlobHash>)> = Vec::new();
+        let mut trace = String::new();
+        for _ in 0..(3 + rng.below(8)) {
+            if guards.is_empty() || rng.below(3) != 0 {
+                let k = rng.below(2) as u8;
+                let hh = h(1 + rng.below(3) as u8);
+                let displaced = model.get(&k).copied();
+                let g = index.register_intent(k, IntentMeta { blob_hash: hh, blob_size: 1 }).unwrap();
+                model.insert(k, hh);
+                trace.push_str(&format!("register(k{}, h{}); ", k, hh.0[0]));
+                guards.push((g, k, hh, displaced));
+            } else {
+                let i = rng.below(guards.len() as u64) as usize;
+                let (g, k, hh, displaced) = guards.remove(i);
+                drop(g);
+                trace.push_str(&format!("abandon(guard of k{} h{}); ", k, hh.0[0]));
+                if model.get(&k) == Some(&hh) {
+                    model.remove(&k);
+                    if let Some(d) = displaced { model.insert(k, d); }
+                }
+            }
+            let real: HashMap<u8, BlobHash> = index.pending_intents.lock().iter().map(|(k, v)| (*k, *v)).collect();
+            assert_eq!(real, model, "round {round}: pending intents differ from the contract model after: {trace}");
+        }
+        drop(guards);
+    }
+}
